@@ -343,3 +343,185 @@ Proof.
   - apply find_none_notin. destruct G2 as [G2|G2]; [exact G2|]. rewrite G2. exact Hfree.
   - unfold no_trash_name. apply find_none_notin. exact G1.
 Qed.
+
+(** ------------------------------------------------------------------ the trashing direction, whole cleanup:
+    an unassigned repository whose simple shards are being moved to the trash and ONE of those renames fails (first,
+    second, any) ends up with none of these shards anywhere — not in the index, not in the trash (no partial copy that a
+    later cleanup would restore as a partial repository). *)
+Definition not_mv_to_trash (b : N) (a : act) : Prop := a <> MvToTrash b.
+
+Lemma trash_free_step now b a x : not_mv_to_trash b a -> no_trash_name b x -> no_trash_name b (apply now x a).
+Proof.
+  intros Ha Hn. unfold no_trash_name in *.
+  destruct a as [b'|b'|b' id' flag|b' id' totr|b'|b'|b'|b'|]; simpl.
+  - exact Hn.
+  - intros g Hg. apply in_rm in Hg. destruct Hg as [Hg _]. auto.
+  - exact Hn.
+  - destruct (serves_others b' id' (d_index x)); simpl; [exact Hn|].
+    destruct totr; [|exact Hn]. intros g Hg. apply in_rm in Hg. destruct Hg as [Hg _]. auto.
+  - exact Hn.
+  - intros g Hg. apply in_on_file_touch in Hg. destruct Hg as [g' [Hg' [Eb _]]]. rewrite Eb. auto.
+  - destruct (find_file b' (d_index x)) as [h|] eqn:F; simpl; [|exact Hn].
+    apply find_file_some in F. destruct F as [Fi Fb].
+    intros g Hg. apply in_app_or in Hg. destruct Hg as [Hg|[<-|[]]]; [auto|].
+    intros E. apply Ha. unfold not_mv_to_trash. congruence.
+  - destruct (find_file b' (d_trash x)) as [h|] eqn:F; simpl; [|exact Hn].
+    intros g Hg. apply in_rm in Hg. destruct Hg as [Hg _]. auto.
+  - exact Hn.
+Qed.
+
+Lemma trash_free_fold now b acts : forall x,
+  Forall (not_mv_to_trash b) acts -> no_trash_name b x -> no_trash_name b (fold_left (apply now) acts x).
+Proof.
+  induction acts as [|a r IH]; intros x HF H; [exact H|]. inversion HF; subst. simpl. apply IH; [assumption|].
+  apply trash_free_step; assumption.
+Qed.
+
+Definition P5f (d : dir) (sm : bool) (mf : bool -> N -> bool) (i : N) : list act :=
+  let g := group (ix d) i in
+  map (fun s => Touch (s_base s)) g ++
+  map (fun s => Tomb (s_base s) i true) (filter (fun s => sm && s_compound s) g) ++
+  moves mf false i [] (filter (fun s => negb (sm && s_compound s)) g).
+
+Section TrashingF.
+  Variables (d : dir) (repos : list N) (now : Z) (sm : bool) (mf : bool -> N -> bool).
+  Variables (g0 : file) (e : entry) (id : N).
+  Hypothesis Hwf : wf d.
+  Hypothesis Hwft : wf_trash d.
+  Hypothesis Htalive : forall t, In t (d_trash d) -> alive_entries t <> [].   (* the trash holds shards of live repositories *)
+  Hypothesis Hg0 : In g0 (d_index d).
+  Hypothesis Hsimple0 : f_compound g0 = false.
+  Hypothesis He : In e (alive_entries g0).
+  Hypothesis Hid : e_id e = id.
+  Hypothesis Hun : ~ In id repos.
+  Hypothesis Hcons : consistent (group (ix d) id) = true.
+  Let G := filter (fun s => negb (sm && s_compound s)) (group (ix d) id).
+  Hypothesis HsimpleG : forall s, In s G -> s_compound s = false.
+  Hypothesis HndG : NoDup (map s_base G).
+  Hypothesis Hfail : any_fail mf false G = true.
+
+  Let b := f_base g0.
+  Let s0 := mkS (e_id e) (e_name e) (f_base g0) (f_compound g0) (f_mtime g0).
+
+  Lemma tf_s0_group : In s0 (group (ix d) id).
+  Proof. apply in_group. split; [|exact Hid]. apply in_get_shards. exists g0, e. auto. Qed.
+
+  Lemma tf_s0_G : In s0 G.
+  Proof.
+    apply filter_In. split; [exact tf_s0_group|]. cbn [s0 s_compound]. rewrite Hsimple0, andb_false_r. reflexivity.
+  Qed.
+
+  Lemma tf_key : In id (keys4 d repos).
+  Proof.
+    assert (Hix : In id (ids_of (ix d))).
+    { apply in_ids_of. exists s0. split; [|exact Hid]. pose proof tf_s0_group as H. apply in_group in H. tauto. }
+    unfold keys4, keys3. apply filter_In. split.
+    - apply filter_In. split; [exact Hix|exact Hcons].
+    - apply negb_true_iff. destruct (memN id repos) eqn:M; [|reflexivity]. apply memN_In in M. contradiction.
+  Qed.
+
+  (* an index shard reference with the name of g0 belongs to [id] *)
+  Lemma tf_base_owner : forall s i, In s (group (ix d) i) -> s_base s = b -> i = id.
+  Proof.
+    intros s i Hs Eb. apply in_group in Hs. destruct Hs as [Hs Hi].
+    apply in_get_shards in Hs. destruct Hs as [f [e' [Hf [He' ->]]]]. cbn [s_base s_id] in *.
+    assert (f = g0) by (eapply NoDup_base_inj; eauto using wf_nodup). subst f.
+    rewrite <- Hi, <- Hid. symmetry. eapply wf_simple; eauto.
+  Qed.
+
+  Lemma tf_after_plan1 : no_trash_name b (fold_left (apply now) (plan1 d now) d).
+  Proof.
+    destruct (find_file b (d_trash d)) as [t|] eqn:F.
+    - apply find_file_some in F. destruct F as [Ht Eb].
+      destruct (alive_entries t) as [|e' rest] eqn:Ea; [exfalso; exact (Htalive t Ht Ea)|].
+      assert (He' : In e' (alive_entries t)) by (rewrite Ea; left; reflexivity).
+      pose proof (wf_trash_names d Hwf t g0 e' Ht Hg0 Eb He') as Hin.
+      assert (Hdrop : trash_drop d now (e_id e') = true).
+      { unfold trash_drop. apply orb_true_iff. left. apply memN_In. exact Hin. }
+      destruct (trash_dropped_in_first_phase d now t e' (e_id e') Ht He' eq_refl Hdrop) as [_ Hn].
+      unfold after_trash_phase in Hn. unfold no_trash_name. rewrite <- Eb. exact Hn.
+    - destruct (trash_only_fold now b (plan1 d now) d (plan1_trash_only d now)) as (_ & _ & Hn).
+      apply Hn. left. unfold no_trash_name. apply find_none_notin. exact F.
+  Qed.
+
+  Lemma tf_plan3 : Forall (not_mv_to_trash b) (plan3 d sm).
+  Proof.
+    apply Forall_forall. intros a Ha. unfold plan3 in Ha. apply in_flat_map in Ha. destruct Ha as [i [_ Ha]].
+    destruct (consistent (group (ix d) i)); [contradiction|].
+    apply in_app_or in Ha. destruct Ha as [Ha|Ha]; apply in_map_iff in Ha; destruct Ha as [s [<- _]].
+    - discriminate.
+    - destruct (s_compound s); discriminate.
+  Qed.
+
+  Lemma tf_plan4 : Forall (not_mv_to_trash b) (plan4_f d repos now mf).
+  Proof.
+    apply Forall_forall. intros a Ha. unfold plan4_f in Ha. apply in_flat_map in Ha. destruct Ha as [i [_ Ha]].
+    destruct (memN i (trash_keys d now)).
+    - apply moves_in in Ha; [|intros s []]. destruct Ha as [s [_ Hm]]. unfold move_act in Hm.
+      destruct Hm as [-> | [-> | [-> _]]]; discriminate.
+    - destruct (memN i (tomb_keys d now)); [|contradiction].
+      destruct (tomb_pick (tomb_candidates (d_index d) i)); [|contradiction].
+      destruct Ha as [<-|[]]. discriminate.
+  Qed.
+
+  Lemma tf_P5_other : forall i, i <> id -> Forall (not_mv_to_trash b) (P5f d sm mf i).
+  Proof.
+    intros i Hne. apply Forall_forall. intros a Ha. unfold P5f in Ha.
+    apply in_app_or in Ha. destruct Ha as [Ha|Ha]; [apply in_map_iff in Ha; destruct Ha as [s [<- _]]; discriminate|].
+    apply in_app_or in Ha. destruct Ha as [Ha|Ha]; [apply in_map_iff in Ha; destruct Ha as [s [<- _]]; discriminate|].
+    apply moves_in in Ha; [|intros s []]. destruct Ha as [s [Hs Hm]]. simpl in Hs.
+    apply filter_In in Hs. destruct Hs as [Hs _].
+    unfold move_act in Hm. destruct (s_compound s).
+    - destruct Hm as [totr ->]. discriminate.
+    - destruct Hm as [-> | [-> | ->]]; try discriminate.
+      intros E. inversion E as [Eb]. apply Hne. exact (tf_base_owner s i Hs Eb).
+  Qed.
+
+  Lemma tf_P5_others : forall l, ~ In id l -> Forall (not_mv_to_trash b) (flat_map (P5f d sm mf) l).
+  Proof.
+    induction l as [|i l IH]; intros Hn; [constructor|].
+    simpl. apply Forall_app. split.
+    - apply tf_P5_other. intros ->. apply Hn. left. reflexivity.
+    - apply IH. intros H. apply Hn. right. exact H.
+  Qed.
+
+  Lemma tf_P5_head : Forall (not_mv_to_trash b)
+    (map (fun s => Touch (s_base s)) (group (ix d) id) ++
+     map (fun s => Tomb (s_base s) id true) (filter (fun s => sm && s_compound s) (group (ix d) id))).
+  Proof.
+    apply Forall_app. split; apply Forall_forall; intros a Ha; apply in_map_iff in Ha; destruct Ha as [s [<- _]]; discriminate.
+  Qed.
+
+  Theorem failed_trashing_drops_all : no_name b (cleanup_f d repos now sm mf).
+  Proof.
+    destruct (in_split_first id (keys4 d repos) tf_key) as (k1 & k2 & Hk & Hn1).
+    assert (Hplan5 : plan5_f d repos sm mf =
+              flat_map (P5f d sm mf) k1 ++
+              ((map (fun s => Touch (s_base s)) (group (ix d) id) ++
+                map (fun s => Tomb (s_base s) id true) (filter (fun s => sm && s_compound s) (group (ix d) id))) ++
+               moves mf false id [] G) ++ flat_map (P5f d sm mf) k2).
+    { unfold plan5_f. change (flat_map _ (keys4 d repos)) with (flat_map (P5f d sm mf) (keys4 d repos)). rewrite Hk.
+      rewrite flat_map_app. simpl. f_equal. f_equal. unfold P5f at 1. rewrite app_assoc. reflexivity. }
+    unfold cleanup_f, plan_f. rewrite Hplan5. repeat rewrite fold_left_app.
+    apply no_name_fold. apply no_name_fold.
+    set (x0 := fold_left (apply now)
+                 (map (fun s => Tomb (s_base s) id true) (filter (fun s => sm && s_compound s) (group (ix d) id)))
+                 (fold_left (apply now) (map (fun s => Touch (s_base s)) (group (ix d) id))
+                    (fold_left (apply now) (flat_map (P5f d sm mf) k1)
+                       (fold_left (apply now) (plan4_f d repos now mf)
+                          (fold_left (apply now) (plan3 d sm) (fold_left (apply now) (plan1 d now) d)))))).
+    assert (Hfree : no_trash_name b x0).
+    { destruct (proj1 (Forall_app _ _ _) tf_P5_head) as [Hh1 Hh2].
+      subst x0. apply trash_free_fold; [exact Hh2|]. apply trash_free_fold; [exact Hh1|].
+      apply trash_free_fold; [exact (tf_P5_others k1 Hn1)|].
+      apply trash_free_fold; [exact tf_plan4|].
+      apply trash_free_fold; [exact tf_plan3|]. exact tf_after_plan1. }
+    destruct (aon_moves_effect mf now false id G [] x0 HsimpleG HndG) as (_ & _ & Gf). cbn zeta in Gf.
+    destruct (Gf s0 tf_s0_G) as [G1 G2]. rewrite Hfail in G2. cbn [srcd dstd s_base s0] in G1, G2.
+    apply notin_find_none in Hfree. subst x0. unfold b in *.
+    split.
+    - apply find_none_notin. exact G1.
+    - unfold no_trash_name. apply find_none_notin. destruct G2 as [G2|G2]; [exact G2|].
+      etransitivity; [exact G2|exact Hfree].
+  Qed.
+End TrashingF.
